@@ -50,7 +50,7 @@ func verifC02Handover(strategyKind int) {
 			obj.(*unstructured.Unstructured).Object = stored.DeepCopy().Object
 		}
 	}
-	cache := &vCache{vReader{Objs: map[client.ObjectKey]*unstructured.Unstructured{}}}
+	cache := &vCache{vReader: vReader{Objs: map[client.ObjectKey]*unstructured.Unstructured{}}}
 	uncached := &vReader{Objs: map[client.ObjectKey]*unstructured.Unstructured{}}
 	cache.Objs[s.key] = s.existing
 	uncached.Objs[s.key] = s.existing
